@@ -49,6 +49,7 @@ PROPS["C16"] = {
 }
 
 PROPS["C15"] = {
+    "extras": ["kvrace"],
     "lean_modules": ["Posmint.Props.C15"],
     "namespaces": ["Posmint.Props.C15"],
     "required_theorems": ["Posmint.Props.C15.get_refines", "Posmint.Props.C15.set_refines", "Posmint.Props.C15.delete_refines",
